@@ -59,3 +59,46 @@ Fixpoint all_distinct (l : list str) : bool :=
 
 Lemma source_names_distinct : all_distinct src_all_names = true.
 Proof. vm_compute. reflexivity. Qed.
+
+(* ---- text -> variant tables of parser/elem_type.rs -------------------------------------------------------------
+   The model's literal tables, with every constructor replaced by the NAME of the Rust variant it stands for, are the
+   source's `"text" => Variant` arms, in the source's order. *)
+From Coq Require Import String.
+Definition with_names {A} (name : A -> string) (t : list (str * A)) : list (list Z * list Z) :=
+  map (fun p => (fst p, s2l (name (snd p)))) t.
+
+Definition namespace_rust (x : namespace) : string := match x with NsStandard => "Standard" | NsCustom => "Custom" end.
+Definition mergeprio_rust (x : mergeprio) : string := match x with MpHigh => "High" | MpMid => "Mid" | MpLow => "Low" end.
+Definition vis_rust (x : vis) : string :=
+  match x with VBeginner => "Beginner" | VExpert => "Expert" | VGuru => "Guru" | VInvisible => "Invisible" end.
+Definition access_rust (x : access) : string := match x with AmRO => "RO" | AmWO => "WO" | AmRW => "RW" end.
+Definition caching_rust (x : caching) : string :=
+  match x with CmWriteThrough => "WriteThrough" | CmWriteAround => "WriteAround" | CmNoCache => "NoCache" end.
+Definition irep_rust (x : irep) : string :=
+  match x with IrLinear => "Linear" | IrLogarithmic => "Logarithmic" | IrBoolean => "Boolean" | IrPureNumber => "PureNumber"
+             | IrHexNumber => "HexNumber" | IrIpV4Address => "IpV4Address" | IrMacAddress => "MacAddress" end.
+Definition frep_rust (x : frep) : string :=
+  match x with FrLinear => "Linear" | FrLogarithmic => "Logarithmic" | FrPureNumber => "PureNumber" end.
+Definition slope_rust (x : slope) : string :=
+  match x with SlIncreasing => "Increasing" | SlDecreasing => "Decreasing" | SlVarying => "Varying" | SlAutomatic => "Automatic" end.
+Definition dnot_rust (x : dnot) : string :=
+  match x with DnAutomatic => "Automatic" | DnFixed => "Fixed" | DnScientific => "Scientific" end.
+Definition stdns_rust (x : stdns) : string :=
+  match x with SnNone => "None" | SnIIDC => "IIDC" | SnGEV => "GEV" | SnCL => "CL" | SnUSB => "USB" end.
+Definition endian_rust (x : endian) : string := match x with EnLE => "LE" | EnBE => "BE" end.
+Definition sign_rust (x : sign) : string := match x with SgSigned => "Signed" | SgUnsigned => "Unsigned" end.
+
+Lemma literal_tables_from_source :
+  with_names namespace_rust namespace_tbl = src_lit_NameSpace /\
+  with_names mergeprio_rust mergeprio_tbl = src_lit_MergePriority /\
+  with_names vis_rust vis_tbl = src_lit_Visibility /\
+  with_names access_rust access_tbl = src_lit_AccessMode /\
+  with_names caching_rust caching_tbl = src_lit_CachingMode /\
+  with_names irep_rust irep_tbl = src_lit_IntegerRepresentation /\
+  with_names frep_rust frep_tbl = src_lit_FloatRepresentation /\
+  with_names slope_rust slope_tbl = src_lit_Slope /\
+  with_names dnot_rust dnot_tbl = src_lit_DisplayNotation /\
+  with_names stdns_rust stdns_tbl = src_lit_StandardNameSpace /\
+  with_names endian_rust endian_tbl = src_lit_Endianness /\
+  with_names sign_rust sign_tbl = src_lit_Sign.
+Proof. repeat split; reflexivity. Qed.
